@@ -609,6 +609,45 @@ func (in *vInst) act(e *vEdge) string {
 	return ""
 }
 
+// actOverlapped: the edge's claim, with a second, newer alive claim about the same member delivered while the
+// first is inside a delegate callback (if the node lock lets it in) or right after the first has returned
+func (in *vInst) actOverlapped(e *vEdge, st *vReplayStats) string {
+	c, cl := in.c, e.Claim
+	hi := cl.Inc
+	if r, ok := e.World.Rec[cl.Node]; ok && r.Inc > hi {
+		hi = r.Inc
+	}
+	second := func() {
+		in.m.aliveNode(&alive{Incarnation: c.incMap(hi + 1), Node: cl.Node, Addr: c.addr[cl.Addr], Port: uint16(cl.Port),
+			Meta: c.meta["m1"], Vsn: c.vsn(cl.Vsn)}, nil, false)
+	}
+	fired, inside := false, false
+	vOverlapHook = func() {
+		if fired {
+			return
+		}
+		fired = true
+		if in.m.nodeLock.TryLock() {
+			in.m.nodeLock.Unlock()
+			inside = true
+			done := make(chan struct{})
+			go func() { defer close(done); second() }()
+			<-done
+		}
+	}
+	why := in.act(e)
+	vOverlapHook = nil
+	if fired {
+		st.Why["overlap: callback reached"]++
+	}
+	if inside {
+		st.Why["overlap: second claim got in during the callback"]++
+	} else {
+		second()
+	}
+	return why
+}
+
 // ---------------------------------------------------------------------------
 
 type vReplayStats struct {
@@ -634,6 +673,13 @@ func TestVerifViewReplay(t *testing.T) {
 		fmt.Sscanf(v, "%d/%d", &shard, &nshard)
 	}
 	variant, _ := strconv.Atoi(os.Getenv("VERIF_VARIANT"))
+	// variants >= 100: overlap mode on top of concretisation (variant - 100): while the claim of the edge is inside a
+	// delegate callback (alive / event / conflict delegate), a second, newer alive claim about the same member is
+	// delivered on another goroutine.  The membership rules run under the node lock, so the second delivery cannot
+	// get in: the harness looks at the lock (TryLock) - held: the second claim is delivered right after the first
+	// returns (the order the lock enforces); free: it is delivered there and then, inside the callback.
+	overlap := variant >= 100
+	variant %= 100
 	f, err := os.Open(edgesPath)
 	if err != nil {
 		t.Fatal(err)
@@ -670,6 +716,9 @@ func TestVerifViewReplay(t *testing.T) {
 
 	conc := vConcretisation(variant)
 	st := &vReplayStats{Why: map[string]int{}, Variant: conc.name}
+	if overlap {
+		st.Variant += "+overlap"
+	}
 	recording := false
 	const batch = 400
 	var sink *vSink
@@ -698,6 +747,15 @@ func TestVerifViewReplay(t *testing.T) {
 			for i := lo; i < hi; i++ {
 				e := edges[i]
 				st.Edges++
+				if overlap && !(e.Kind == "udpalive" || (e.Kind == "nodeop" && e.Op == "alive" && (e.Via == "direct" || e.Via == "merge"))) {
+					st.Edges--
+					continue
+				}
+				if overlap {
+					// every callback an alive claim can reach is installed (the alive delegate vetoes only its own
+					// metadata value, as in the configurations that have one)
+					e.Cfg.AliveDelegate = true
+				}
 				in := vNewInst(t, sink, conc, e.Cfg)
 				why := in.build(e.World, e.Cfg)
 				if why != "" {
@@ -723,7 +781,11 @@ func TestVerifViewReplay(t *testing.T) {
 				sink.caseID = ids[i]
 				sink.mu.Unlock()
 				recording = true
-				why = in.act(e)
+				if overlap {
+					why = in.actOverlapped(e, st)
+				} else {
+					why = in.act(e)
+				}
 				recording = false
 				if why != "" {
 					st.ActFailed++
